@@ -73,7 +73,8 @@ func Run(r *hk.Run) {
 		return
 	}
 	r.Res.Rule = "a case = one history of claims delivered to a fresh index pair (rows only / corpus kept in memory), queried on three paths " +
-		"(idx = Index.AppendClaims+sort+claimsIntfAttrValue without corpus, inc = live corpus, load = fresh index.New+KeepInMemory over the same rows). " +
+		"(idx = Index.AppendClaims+sort+claimsIntfAttrValue without corpus, inc = live corpus, load = fresh index.New+KeepInMemory over the same rows); " +
+		"in a bounded share of the cases also search.Handler.Describe over each of the three indexes. " +
 		"(a) exhaustive: every sequence of ≤ L claims over {set x,set y,add x,add y,del x,del \"\"} on one attribute × every arrival order (L=3 quick, 4 thorough); " +
 		"(b) random histories on 1–2 permanodes, 2 signers, 6 attributes, 12 values (empty, repeated, URL-special, UTF-8), dates out of arrival order, ties (≤ 12 rows), future dates, delete/undelete chains; " +
 		"(c) delete chains of depth ≤ 7 with branches; (d) malformed op lines. distinct = distinct histories up to renaming of ids and dates (order-isomorphic); non-trivial = ≥ 2 claims"
@@ -122,6 +123,7 @@ func exhaustive(r *hk.Run) {
 				// order[i] = the date rank of the i-th arriving claim
 				r.Case(fmt.Sprintf("exhaustive n=%d", len(seq)))
 				g := newGenWorld(r)
+				g.desc = len(seq) <= 2
 				g.pn(0)
 				for _, k := range order {
 					g.claim(0, 0, seq[k].kind, "tag", seq[k].val, int64(100*(k+1)))
@@ -133,6 +135,13 @@ func exhaustive(r *hk.Run) {
 				g.queryAll(0, "tag", times, []string{"a", "0"}, []string{"x", "y"})
 				g.qOrder("inc", 0)
 				g.qOrder("load", 0)
+				if g.desc {
+					for _, t := range times {
+						for _, m := range allModes {
+							g.qDesc(m, 0, "tag", t, 0)
+						}
+					}
+				}
 				if len(seq) >= 2 {
 					r.Distinct(caseKey(g))
 				}
@@ -161,6 +170,7 @@ func random(r *hk.Run) {
 	for i := 0; i < N; i++ {
 		r.Case("random")
 		g := newGenWorld(r)
+		g.desc = i < N/8
 		npn := 1 + rnd.Intn(2)
 		for p := 0; p < npn; p++ {
 			g.pn(p)
@@ -303,6 +313,11 @@ func (g *gen) randomQueries(npn int, attrs, vals []string, final bool) {
 		if attr == "latitude" || attr == "longitude" {
 			g.qLocation(p, t, f)
 		}
+		if g.desc {
+			for _, m := range allModes {
+				g.qDesc(m, p, attr, t, rnd.Intn(2))
+			}
+		}
 	}
 	if final {
 		for p := 0; p < npn; p++ {
@@ -337,6 +352,7 @@ func chains(r *hk.Run) {
 	for i := 0; i < N; i++ {
 		r.Case("delete-chain")
 		g := newGenWorld(r)
+		g.desc = i < N/4
 		g.pn(0)
 		base := []*gclaim{g.claim(0, 0, "set", "title", "v1", 1000), g.claim(0, rnd.Intn(2), "add", "title", "v2", 2000),
 			g.claim(0, 0, "add", "tag", "t", 1500)}
@@ -371,6 +387,9 @@ func chains(r *hk.Run) {
 				g.qDeleted(m, "p0")
 				g.qAttr(m, 0, "title", 0, "a")
 				g.qClaims(m, 0, "a", "")
+				if g.desc {
+					g.qDesc(m, 0, "title", 0, 0)
+				}
 			}
 			for _, m := range corpusModes {
 				g.qVals(m, 0, "title", 0, "a")
@@ -422,7 +441,7 @@ func malformed(r *hk.Run) {
 		"attr inc 0 7461g7 z a", "attr inc 0 746167 z", "vals idx 0 746167 z a", "vals inc 0 746167 z a a", "has idx 0 746167 78 z",
 		"has inc 0 746167 78", "via idx 0 z a", "via inc 0 z", "deleted inc c9", "deleted foo c1", "deleted inc", "deleted inc q1",
 		"claims inc 0 a", "claims inc 0 a -", "claims foo 0 a *", "claims inc 0 q *", "order idx 0", "order inc 1", "order inc",
-		"ATTR inc 0 746167 z a",
+		"ATTR inc 0 746167 z a", "desc inc 0 746167 z", "desc inc 0 746167 z 2", "desc foo 0 746167 z 0", "desc inc 1 746167 z 0",
 	}
 	for _, l := range bad {
 		out := g.op(l)
